@@ -128,3 +128,13 @@ TABLE["C08"] = {
     "level_text": "Theorems over the arm table regenerated from macros.rs on every run: every arm uses only bound metavariables (C08_scoped), fn-kind and return type of the generated fake and of the coercion equal the pattern's (C08_kind), every arm has the one common meaning for every call environment - all counter values and N (C08_meaning = general lemma allowed_meaning + decide over the table), counting verifier iff `times` (C08_verifier), no arm shadowed (C08_reach). The translator and rustc's side are validated by compiling and running one instantiation per arm and comparing call by call.",
     "level_note": "Trusted: Lean kernel, translate/arms.py patterns (unrecognised text becomes `unknown` and fails C08_shapes), armgen instantiations.",
 }
+
+TABLE["C11"] = {
+    "pipelines": [{"name": "alloc", "cmd": ["alloc"], "n_quick": 300, "n_thorough": 20000, "timeout": 900, "timeout_thorough": 3400}],
+    "fail_keys": ["c11."],
+    "trusted_base": TB_COMMON + ["the shim's scripted mmap (fail / honour the hint / place at a chosen address, always backed by a real mapping) stands in for the kernel; the real kernel is used for the reserved-neighbourhood cases", "the oracle answers fed to the model are the addresses the (scripted or real) kernel returned"],
+    "rule": "6 target addresses (0x10000 and 64 MiB: window clipped at 0; exactly 128 MiB; 4 GiB; mid; top of user space) x sizes 8/12/20 x boundary scripts (placement exactly at +-range, one page inside, one page outside then inside, failures then honour, far away), PRNG scripts of 1-6 answers, whole-window exhaustion (all 65537 probes fail) and full-except-one-page at offsets 0, 1, middle, last-1, last for clipped and unclipped windows, real kernel with the +-128 MiB neighbourhood reserved PROT_NONE except one page (3 positions) or entirely, and one complete install whose allocation is exhausted. Distinct by (src, size, answer sequence)",
+    "assumptions": ["mmap never returns an address the process already holds (freshness of the oracle)", "src + range does not overflow u64 (user-space addresses)"],
+    "level_text": "Theorems for all target addresses, page sizes and kernel answer sequences: an accepted placement is strictly within +-128 MiB and is the only mapping kept; on panic nothing obtained is left mapped (C11_sound); the loop makes at most 2*range/page+1 probes (C11_terminates, C11_probe_bound); every accepted placement is encodable by the x86-64 entry branch and by the AArch64 B (C11_reach_x86, C11_reach_a64, through C01/C15). Correspondence: the unmodified allocator under scripted and real kernels, event log compared call by call.",
+    "level_note": "Trusted: Lean kernel, shim, oracle freshness. Windows VirtualAlloc path not modelled.",
+}
